@@ -164,3 +164,51 @@ Proof.
   intros [_ H]. specialize (H "aux" "aux_p" 1 ltac:(vm_compute; auto) ltac:(vm_compute; auto) ltac:(vm_compute; reflexivity)).
   discriminate.
 Qed.
+
+(* ---------- a shipped example: res/examples/external_equivalence/trivial/propositional ----------
+       specification   spec: q <-> t or r.   spec: p <-> #true.
+       program         p.  q :- t.  q :- r.
+       user guide      input: t/0. input: r/0. output: p/0. output: q/0.
+   The claim is TRUE.  Every emitted problem (universal direction, equivalence breaking on, simplification
+   on) is valid in every interpretation - shown by evaluation - and THROUGH
+   spec_verified_iff_no_difference no interpretation witnesses a difference: every model of the
+   specification is an external stable model of the program, and every external stable model satisfies
+   the specification. *)
+Definition at0 (p : string) : formula := FAtomic (AAtom p []).
+Definition Sprop : specification :=
+  [mkannot RSpec DUniversal "" (FBin CIff (at0 "q") (FBin COr (at0 "t") (at0 "r")));
+   mkannot RSpec DUniversal "" (FBin CIff (at0 "p") (FAtomic ATrue))].
+Definition fact0 (h : string) : rule := mkrule (HBasic (mkatom h [])) [].
+Definition rule0 (h b : string) : rule := mkrule (HBasic (mkatom h [])) [BLit (mklit SNone (mkatom b []))].
+Definition Pprop : program := [fact0 "p"; rule0 "q" "t"; rule0 "q" "r"].
+Definition tprop : ext_task :=
+  mkext (inr Sprop) Pprop [UGInput (mkpred "t" 0); UGInput (mkpred "r" 0); UGOutput (mkpred "p" 0); UGOutput (mkpred "q" 0)]
+        [] DSequential DUniversal ReprTauStar false true true.
+Definition pbsprop : list problem :=
+  match external_decompose_full full_fuel tprop with XOk _ pbs => pbs | _ => [] end.
+Lemma tprop_accepted : external_decompose_full full_fuel tprop = XOk [] pbsprop.
+Proof. vm_compute. reflexivity. Qed.
+Lemma tprop_tight : is_tight (et_program tprop) = true. Proof. vm_compute. reflexivity. Qed.
+Lemma tprop_no_clash :
+  forall vt, task_validated tau_star_total completion (simp_classic_total full_fuel) tprop = Some vt -> validated_no_clash vt.
+Proof. apply task_no_clashb_spec. vm_compute. reflexivity. Qed.
+Lemma tprop_irrefutable FI M : ~ refutes_some FI M pbsprop.
+Proof.
+  remember pbsprop as l eqn:E. vm_compute in E. subst l. intros [pb [Hin [Hax [c [Hc Hnc]]]]].
+  cbn in Hin.
+  (* one case per problem: its single conjecture follows propositionally from its (at most five) axioms *)
+  repeat (destruct Hin as [<-|Hin];
+          [cbn in Hc; destruct Hc as [<-|[]]; apply Hnc; intros e; cbn; cbn in Hax;
+           try (pose proof (Hax _ (or_introl eq_refl) e) as A1; cbn in A1);
+           try (pose proof (Hax _ (or_intror (or_introl eq_refl)) e) as A2; cbn in A2);
+           try (pose proof (Hax _ (or_intror (or_intror (or_introl eq_refl))) e) as A3; cbn in A3);
+           try (pose proof (Hax _ (or_intror (or_intror (or_intror (or_introl eq_refl)))) e) as A4; cbn in A4);
+           try (pose proof (Hax _ (or_intror (or_intror (or_intror (or_intror (or_introl eq_refl))))) e) as A5; cbn in A5);
+           tauto|]).
+  destruct Hin.
+Qed.
+Lemma tprop_no_difference FI M : ~ spec_difference tprop Sprop FI M.
+Proof.
+  exact (proj1 (spec_verified_iff_no_difference full_fuel tprop Sprop [] pbsprop eq_refl eq_refl tprop_accepted tprop_tight tprop_no_clash)
+           tprop_irrefutable FI M).
+Qed.
